@@ -293,6 +293,9 @@ def main(argv=None):
     ev = build_evidence(a.prop, P, a.tier, seed, results, total_ob, discharged, wall, violations, known_hits, witnesses)
     # VERIF_EVIDENCE_DIR: used while trying seeded changes, so that the committed evidence stays that of the unchanged tree
     evdir = os.environ.get('VERIF_EVIDENCE_DIR') or os.path.join(ROOT, 'evidence')
+    if a.unit and not os.environ.get('VERIF_EVIDENCE_DIR'):
+        # a run restricted to one unit (development aid) does not describe the property: keep it out of evidence/
+        evdir = os.path.join(ROOT, '.work', 'partial-evidence')
     os.makedirs(evdir, exist_ok=True)
     with open(os.path.join(evdir, a.prop + '.json'), 'w') as f:
         json.dump(ev, f, indent=1)
